@@ -438,6 +438,11 @@ func (s *ReceiveStream) handleResetStreamFrame(frame *wire.ResetStreamFrame, now
 	s.mutex.Unlock()
 
 	if completed {
+		// Return what was received but never read to the connection flow controller, as
+		// handleStreamFrame and CancelRead do: after a local CancelRead the read position
+		// never reaches the reliable size, so handleResetStreamFrameImpl didn't.
+		// Calling Abandon multiple times is a no-op.
+		s.flowController.Abandon()
 		s.sender.onStreamCompleted(s.streamID)
 	}
 	return err
